@@ -161,8 +161,11 @@ func dirSum(path string, dir *os.File) (string, error) {
 
 	h := sha256.New()
 	for _, entry := range entries {
+		// An entry that cannot be opened because it does not exist (a symbolic link to nowhere,
+		// a file removed since the directory was read) has a name and no contents; it must not
+		// make the whole directory look absent.
 		sum, err := fileSum(filepath.Join(path, entry.Name()))
-		if err != nil {
+		if err != nil && !os.IsNotExist(err) {
 			return "", err
 		}
 		if _, err := fmt.Fprintf(h, "%s\x00%s\x00", entry.Name(), sum); err != nil {
